@@ -26,7 +26,14 @@ type job struct {
 	Workers     int    `json:"workers"`
 	NoSameOwner bool   `json:"no_same_owner"`
 	NoSamePerm  bool   `json:"no_same_perm"`
+	Unpriv      bool   `json:"unpriv"` // after the chroot, drop to unprivUID:unprivGID (no supplementary groups) before unpacking
 }
+
+// The unprivileged identity of a child (owns the destination tree and the u* sentinels).
+const (
+	unprivUID = 4242
+	unprivGID = 4242
+)
 
 // callRec is one FilesystemWriter call observed by the child.
 type callRec struct {
@@ -168,6 +175,22 @@ func childMain() {
 	if fi, err := os.Lstat(path.Dir(destAbs)); err != nil || !fi.IsDir() {
 		childFatal(3, "parent of the destination missing inside the chroot: %v", err)
 	}
+	if j.Unpriv {
+		// irreversible for this process; applies to every thread
+		if err := syscall.Setgroups([]int{}); err != nil {
+			childFatal(3, "setgroups: %v", err)
+		}
+		if err := syscall.Setgid(unprivGID); err != nil {
+			childFatal(3, "setgid: %v", err)
+		}
+		if err := syscall.Setuid(unprivUID); err != nil {
+			childFatal(3, "setuid: %v", err)
+		}
+		if os.Geteuid() != unprivUID || os.Getuid() != unprivUID || syscall.Setuid(0) == nil {
+			childFatal(3, "privileges were not dropped (uid %d euid %d)", os.Getuid(), os.Geteuid())
+		}
+	}
+	lightSnap = true
 	os.Stdout.WriteString(lineReady + "\n")
 
 	var runErr error
